@@ -10,6 +10,15 @@ set_option linter.unusedVariables false
 namespace RingBuffer
 open Extracted.RingBuffer
 
+/-! ### Meaning of the translated conditions (independent of the order of `and` / `or` operands in the source) -/
+
+theorem updReject_iff (t o : Int) (b : Bool) : updReject t o b ↔ (t < o ∧ b = false) := by
+  unfold updReject; constructor <;> intro h <;> exact ⟨by first | exact h.1 | exact h.2, by first | exact h.2 | exact h.1⟩
+
+theorem ugCreated_iff (found : Bool) (t n p : Int) : ugCreated found t n p ↔ (found = false ∧ t > n + p) := by
+  unfold ugCreated
+  cases found <;> simp
+
 /-! ### Membership -/
 
 theorem isMissing_iff (l : List Gap) (k : Int) :
@@ -351,7 +360,7 @@ theorem cleanupLoop_spec (o : Int) : ∀ (fuel : Nat) (l : List Gap), mu o l ≤
       have hner : NE rest := fun x hx => hne x (List.mem_cons_of_mem _ hx)
       have hw1 : w1.1 < w1.2 := hne w1 (List.mem_cons_self ..)
       unfold cleanupLoop
-      simp only [clOutdated, clRolled, clSubset, clNeighbor]
+      simp only [clOutdated, clRolled, clNeighbor]
       by_cases hA : w1.2 ≤ o
       · -- outdated: deleted
         simp only [hA, if_true]
@@ -410,8 +419,8 @@ theorem cleanupLoop_spec (o : Int) : ∀ (fuel : Nat) (l : List Gap), mu o l ≤
             have hw2 : w2.1 < w2.2 := hner w2 (List.mem_cons_self ..)
             rw [List.pairwise_cons] at hodr
             obtain ⟨h2r, hodr'⟩ := hodr
-            have hC : ¬ (w1.1 ≤ w2.1 ∧ w1.2 ≥ w2.2) := by omega
-            simp only [hC, if_false]
+            have hC : ¬ clSubset w1.1 w1.2 w2.1 w2.2 := by unfold clSubset; omega
+            rw [if_neg hC]
             rw [mu_cons] at hmu
             by_cases hD : w1.2 ≥ w2.1
             · -- direct neighbours: merged into one gap, same position examined again
@@ -582,7 +591,7 @@ theorem updateGaps_spec (cap : Nat) (hcap : 1 ≤ cap) (gaps : List Gap) (t prev
           have hout : out = cleanupGaps o' (gaps ++ [(prev + 1, t)]) := by
             show updateGaps cap gaps t prev n' o' false = _
             unfold updateGaps
-            simp only [ugJump, ugCreated, ugCreatedStart, ugCreatedEnd, hj, hf, hcr, and_false, if_false,
+            simp only [ugJump, ugCreated_iff, ugCreatedStart, ugCreatedEnd, hj, hf, hcr, and_false, if_false,
               Bool.false_eq_true, not_false_eq_true, and_self, if_true]
           rw [hout]
           apply fin
@@ -616,7 +625,7 @@ theorem updateGaps_spec (cap : Nat) (hcap : 1 ≤ cap) (gaps : List Gap) (t prev
           have hout : out = cleanupGaps o' gaps := by
             show updateGaps cap gaps t prev n' o' false = _
             unfold updateGaps
-            simp only [ugJump, ugCreated, hj, hf, hcr, and_false, if_false, Bool.false_eq_true]
+            simp only [ugJump, ugCreated_iff, hj, hf, hcr, and_false, if_false, Bool.false_eq_true]
           rw [hout]
           apply fin _ hsd hne hubn
           intro k hk1 hk2
@@ -676,8 +685,8 @@ theorem updateGaps_spec (cap : Nat) (hcap : 1 ≤ cap) (gaps : List Gap) (t prev
       have hout : out = cleanupGaps o' (removeGap gaps t) := by
         show updateGaps cap gaps t prev n' o' false = _
         unfold updateGaps
-        simp only [ugJump, ugCreated, hj, hf, and_false, if_false, not_true_eq_false, false_and,
-          Bool.false_eq_true, hlen, and_self, if_true]
+        simp only [ugJump, ugCreated_iff, hj, hf, and_false, if_false, not_true_eq_false, false_and,
+          Bool.false_eq_true, Bool.true_eq_false, hlen, and_self, if_true, true_and, and_true]
       obtain ⟨r1, r2, r3, r4, _⟩ := removeGap_spec gaps t hN.od hne
       rw [hout]
       apply fin _ r1 r2 (r4 _ hubn)
